@@ -179,8 +179,11 @@ class UnitGen:
                     cur_sec = Section(d, rest, opts)
                     cur_fn.sections.append(cur_sec)
                 elif d == 'loop':
-                    rest, opts = parse_opts(words[1:])
-                    cur_sec = Section('loop', [int(rest[0])], opts)
+                    m = re.match(r'//!loop\s+(\d+)\s*(?:/(.*)/)?\s*(.*)$', s)
+                    if not m:
+                        raise ExtractError('bad loop directive at %s' % origin)
+                    rest, opts = parse_opts(m.group(3).split())
+                    cur_sec = Section('loop', [int(m.group(1)), m.group(2)], opts)
                     cur_fn.sections.append(cur_sec)
                 elif d in ('after', 'before'):
                     m = re.match(r'//!(after|before)\s+(\d+)\s+/(.*)/\s*(.*)$', s)
@@ -507,6 +510,7 @@ class UnitGen:
 
         # loops
         loops = []
+        loop_heads = []
         for m in re.finditer(r'\b(for|while|loop)\b', mbody):
             # header ends at first '{' at paren depth 0
             j = m.end()
@@ -520,6 +524,10 @@ class UnitGen:
                 j += 1
             if ok and j < len(mbody):
                 loops.append(j)
+                k2 = j
+                # header text up to the end of the line holding the '{' (tells `while let … {}` from `while let … {`)
+                eol = body.find('\n', j)
+                loop_heads.append(' '.join(body[m.start():(eol if eol >= 0 else len(body))].split()))
         info['loops'] = len(loops)
         body_lines_off = [0]
         for m in re.finditer(r'\n', body):
@@ -541,10 +549,12 @@ class UnitGen:
                 add(1, ml, cid, tags, sec.role)
             elif sec.kind == 'loop':
                 n = sec.args[0]
-                if n > len(loops):
+                pat = sec.args[1] if len(sec.args) > 1 else None
+                cand = [k for k in range(len(loops)) if pat is None or re.search(pat, loop_heads[k])]
+                if n > len(cand):
                     g.lost_anchors.append(cid)
                     continue
-                add(loops[n - 1], ml, cid, tags, sec.role, True)
+                add(loops[cand[n - 1]], ml, cid, tags, sec.role, True)
             else:
                 n, pat = sec.args
                 rx = re.compile(pat)
